@@ -197,13 +197,13 @@ Proof.
 Qed.
 
 (* ---------- Check + Write through a logger's core ---------- *)
-Definition log_marks (hi : bool) (root : lcomp) (its : list pitem) : list nat :=
+Definition log_marks (hi : lvq) (root : lcomp) (its : list pitem) : list nat :=
   if is_nil its then log_ids hi root else all_ids root ++ lazy_ids its.
 
 Lemma klog_expect root hi nm msg w fs : wf_sflds fs = true -> wf_lcomp root = true -> senabled hi root = true ->
   forall its sg m, wf_items its = true -> NoDup (all_ids root ++ lazy_ids its) -> root_ok m sg root -> path_ok m sg root its ->
   let m' := mark_all w (log_marks hi root its) m in
-  exists sg', klog (mk_entry hi nm msg) hi w fs root (expect m root its) sg =
+  exists sg', klog (mk_entry (lv hi) nm msg) hi w fs root (expect m root its) sg =
                 (swalk m' hi nm msg w fs root its false, sg') /\
               root_ok m' sg' root /\ path_ok m' sg' root its /\
               (forall id, ~ In id (all_ids root ++ lazy_ids its) -> lookup id sg' = lookup id sg).
